@@ -45,7 +45,11 @@ func (db *DB) CreateInBatches(value interface{}, batchSize int) (tx *DB) {
 				}
 
 				subtx := tx.getInstance()
-				subtx.Statement.Dest = reflectValue.Slice(i, ends).Interface()
+				// an addressable batch over the same elements: a RETURNING clause that returns whole rows scans
+				// them back into the destination, which must be settable
+				batch := reflect.New(reflectValue.Slice(i, ends).Type())
+				batch.Elem().Set(reflectValue.Slice(i, ends))
+				subtx.Statement.Dest = batch.Interface()
 				subtx = subtx.callbacks.Create().Execute(subtx)
 				if subtx.Error != nil {
 					return subtx.Error
